@@ -9,10 +9,12 @@ import (
 	"fmt"
 	"os"
 	"runtime"
+	"strconv"
 
 	"verifharness/internal/core"
 	_ "verifharness/internal/props"
 	"verifharness/internal/props/c03"
+	"verifharness/internal/props/c07"
 	"verifharness/internal/props/c20"
 )
 
@@ -44,6 +46,13 @@ func main() {
 			usage()
 		}
 		os.Exit(core.RunReplay(os.Args[2]))
+	case "c07audit":
+		if len(os.Args) != 5 {
+			usage()
+		}
+		n, _ := strconv.Atoi(os.Args[2])
+		seed, _ := strconv.ParseInt(os.Args[3], 10, 64)
+		os.Exit(c07.AuditChild(n, seed, os.Args[4]))
 	case "c03server":
 		if len(os.Args) != 3 {
 			usage()
